@@ -370,7 +370,10 @@ func (c *Ctx) decouplingRule(rule string) {
 	}
 }
 
-// arrivalOrderRule: the R02.6 decisions under another rule id.
+// arrivalOrderRule: frames are executed strictly in arrival order. Decided on events, not on
+// function names: one executor goroutine; every operation whose order matters (looking a
+// response up, invoking a sink, looking a cancel up, registering a handler's cancel function)
+// happens synchronously under the executor; the reader queues a frame before the next read starts.
 func (c *Ctx) arrivalOrderRule(rule string) {
 	p, r := c.P, c.R
 	w := c.ws()
@@ -380,44 +383,77 @@ func (c *Ctx) arrivalOrderRule(rule string) {
 	}
 	var spawns []*ssa.Go
 	for _, fn := range p.Funcs {
-		allInstrs(fn, func(in ssa.Instruction) {
+		allInstrsRaw(fn, func(in ssa.Instruction) {
 			if g, ok := in.(*ssa.Go); ok && p.unbound(staticCallee(g)) == r.FnExec {
 				spawns = append(spawns, g)
 			}
 		})
 	}
 	construct := fmt.Sprintf("%s: single frame executor", fname(r.FnExec))
-	c.check(len(spawns) == 1 && !inLoop(spawns[0].Block()), rule, construct, p.pos(r.FnExec.Pos()), "started once, outside any loop", "frames are executed by more than one goroutine: values of a stream can overtake each other")
-	for _, pair := range []struct {
-		from, to *ssa.Function
-		what     string
-	}{{r.FnExec, w.FrameSwitch, "frame switch"}, {w.FrameSwitch, w.Resp, "response handler"}, {w.FrameSwitch, w.ChanVal, "channel-value handler"}, {w.FrameSwitch, w.ChanClose, "channel-close handler"}} {
-		if pair.from == nil || pair.to == nil {
-			c.und(rule, "dispatch chain: "+pair.what, "-", "function role not resolved")
-			continue
-		}
-		cons := fmt.Sprintf("%s: dispatch to the %s", fname(pair.from), pair.what)
-		sites := callsTo(pair.from, pair.to)
-		if len(sites) == 0 {
-			c.bad(rule, cons, p.pos(pair.from.Pos()), "not dispatched directly any more")
-		}
-		for _, s := range sites {
-			_, isCall := s.(*ssa.Call)
-			c.check(isCall, rule, cons, c.ipos(s), "synchronous", "dispatched on a new goroutine: a channel value can overtake the response announcing its channel, or an earlier value")
-		}
+	switch {
+	case len(spawns) != 1:
+		c.bad(rule, construct, p.pos(r.FnExec.Pos()), fmt.Sprintf("the frame executor is started %d times: frames would be executed concurrently, out of arrival order", len(spawns)))
+	case inLoop(spawns[0].Block()):
+		c.bad(rule, construct, c.ipos(spawns[0]), "the frame executor is started inside a loop")
+	default:
+		c.ok(rule, construct, c.ipos(spawns[0]), "started once, outside any loop")
 	}
-	if w.ReadFrame != nil && w.Reader != nil {
-		cons := fmt.Sprintf("%s: enqueue before starting the next read", fname(w.ReadFrame))
-		var enq ssa.Instruction
-		for _, u := range usesOfKind(usesIn(p.uses(r.FQueue), w.ReadFrame), "send", "select-send") {
-			enq = u.At
+	// exactly one dequeue point, dispatching synchronously
+	type ev struct {
+		what string
+		at   ssa.Instruction
+	}
+	var evs []ev
+	for _, u := range usesOfKind(p.uses(r.FInflight), "maplookup") {
+		evs = append(evs, ev{"response lookup", u.At})
+	}
+	for _, u := range usesOfKind(p.uses(r.FHandling), "maplookup") {
+		evs = append(evs, ev{"cancel lookup", u.At})
+	}
+	for _, u := range usesOfKind(p.uses(r.FHandling), "mapupdate") {
+		evs = append(evs, ev{"registration of a handler's cancel function", u.At})
+	}
+	for _, u := range usesOfKind(p.uses(r.FChanh), "maplookup") {
+		if w.SinkCloser != nil && p.inCone(w.SinkCloser, u.At) && !p.inCone(r.FnExec, u.At) {
+			continue // the connection-loss sweep
 		}
-		allInstrs(w.ReadFrame, func(in ssa.Instruction) {
+		evs = append(evs, ev{"sink lookup", u.At})
+	}
+	for _, e := range evs {
+		cons := fmt.Sprintf("%s: %s happens in frame order", fname(e.at.Parent()), e.what)
+		c.check(p.inCone(r.FnExec, e.at), rule, cons, c.ipos(e.at), "synchronously under the frame executor",
+			"this step is not reached synchronously from the frame executor (it runs on another goroutine): frames of one connection are no longer handled in arrival order — a channel value can overtake the response announcing its channel, a cancel can overtake its call")
+	}
+	if len(evs) == 0 {
+		c.und(rule, "frame-order events", "-", "no response / cancel / sink lookup found")
+	}
+	// the reader queues a frame before the next read is started
+	if w.ReadFrame != nil && w.Reader != nil {
+		isEnq := func(x ssa.Instruction) bool {
+			switch y := x.(type) {
+			case *ssa.Send:
+				return c.fieldVal(y.Chan, r.FQueue)
+			case *ssa.Select:
+				for _, st := range y.States {
+					if st.Dir == types.SendOnly && c.fieldVal(st.Chan, r.FQueue) {
+						return true
+					}
+				}
+			}
+			return false
+		}
+		n := 0
+		p.coneInstrs(w.ReadFrame, func(in ssa.Instruction) {
 			g, ok := in.(*ssa.Go)
 			if !ok || p.unbound(staticCallee(g)) != w.Reader {
 				return
 			}
-			c.check(enq != nil && mustPrecede(w.ReadFrame, func(x ssa.Instruction) bool { return x == enq }, g), rule, cons, c.ipos(g), "queued first", "the next frame can be read and queued before this one")
+			n++
+			cons := fmt.Sprintf("%s: enqueue before starting the next read", fname(in.Parent()))
+			c.check(mustPrecedeIP(g, isEnq, 0), rule, cons, c.ipos(g), "queued first", "the next frame can be read and queued before this one: frames are executed out of arrival order")
 		})
+		if n == 0 {
+			c.bad(rule, fmt.Sprintf("%s: enqueue before starting the next read", fname(w.ReadFrame)), p.pos(w.ReadFrame.Pos()), "the frame reader no longer restarts the socket read after queueing a frame")
+		}
 	}
 }
